@@ -45,6 +45,10 @@ func init() {
 		"(*bytes.Buffer).Grow":                  func(fr *frame, args []value) value { return nil },
 		"strings.Join":                          extStringsJoin,
 		"reflect.ValueOf":                       extReflectValueOf,
+		"reflect.TypeOf":                        extReflectTypeOf,
+		"(*reflect.rtype).Comparable":           extRtypeComparable,
+		"(*reflect.rtype).Kind":                 extRtypeKind,
+		"(*reflect.rtype).String":               extRtypeString,
 		"(reflect.Value).Kind":                  extReflectKind,
 		"(reflect.Value).Int":                   extReflectInt,
 		"(reflect.Value).Uint":                  extReflectUint,
@@ -740,6 +744,32 @@ func reflectKind(t types.Type) reflect.Kind {
 
 // reflect.Value is boxed as its real 3-field struct {typ_, ptr, flag} with
 // typ_ = rtype and ptr = the value.
+// reflect.TypeOf returns a reflect.Type whose dynamic type is the real
+// *reflect.rtype (so that method calls dispatch) boxed over an rtype value.
+func extReflectTypeOf(fr *frame, args []value) value {
+	a := args[0].(iface)
+	if a.t == nil {
+		return iface{}
+	}
+	rp := fr.i.prog.ImportedPackage("reflect")
+	if rp == nil || rp.Type("rtype") == nil {
+		panic(pathAbort{"unsupported", "reflect.TypeOf: reflect.rtype not loaded"})
+	}
+	return iface{t: types.NewPointer(rp.Type("rtype").Object().Type()), v: rtype{a.t}}
+}
+
+func extRtypeComparable(fr *frame, args []value) value {
+	return types.Comparable(args[0].(rtype).t)
+}
+
+func extRtypeKind(fr *frame, args []value) value {
+	return uint(reflectKind(args[0].(rtype).t))
+}
+
+func extRtypeString(fr *frame, args []value) value {
+	return typeName(args[0].(rtype).t)
+}
+
 func extReflectValueOf(fr *frame, args []value) value {
 	a := args[0].(iface)
 	if a.t == nil {
